@@ -73,6 +73,11 @@ impl PoeticNumberLiteralTemplate {
             }
             first = false;
         }
+        #[cfg(feature = "verif")]
+        crate::verif::pre(
+            "boring_assignment.as_text",
+            std::str::from_utf8(&bytes).is_ok(),
+        );
         unsafe { String::from_utf8_unchecked(bytes) }
     }
 }
